@@ -342,6 +342,22 @@ def run(ctx):
         sem = ArchSemantics(mm)
         lines = S.random_kernel(rng, m, rng.randint(1, 8 if quick else 25))
         if all(next(f for f in m["forms"] if f["name"] == l.split()[0])["tp"] == 0.0 for l in lines):
+            # nothing is summed for such a kernel; it must still be analysable under optimised scheduling
+            # (zen3: a kernel that consists of a conditional jump)
+            kernel = px.parse_file("\n".join(lines))
+            try:
+                sem.add_semantics(kernel)
+                before = [list(i.port_pressure) for i in kernel]
+                sem.assign_optimal_throughput(kernel)
+                sem.assign_optimal_throughput(kernel)
+                ctx.count("kernels_without_throughput")
+                if [list(i.port_pressure) for i in kernel] != before:
+                    ctx.violation("optimised scheduling changed the pressure of a kernel in which no line is summed",
+                                  {"kind": "synthetic", "model_yaml": S.model_yaml(m), "kernel": lines, "state": "no-throughput"})
+            except Exception as e:  # noqa
+                ctx.violation("optimised scheduling raised %s on a kernel whose lines all have throughput 0" % type(e).__name__,
+                              {"kind": "synthetic", "model_yaml": S.model_yaml(m), "kernel": lines, "state": "no-throughput",
+                               "exception": type(e).__name__}, key="no-throughput-kernel-crash")
             continue
         kernel = px.parse_file("\n".join(lines))
         byname = {f["name"].upper(): f for f in m["forms"]}
@@ -473,6 +489,17 @@ def replay(ctx, path):
         kernel = px.parse_file("\n".join(rep["kernel"]))
         sem = ArchSemantics(mm)
         sem.add_semantics(kernel)
+        if rep.get("state") == "no-throughput":
+            before = [list(i.port_pressure) for i in kernel]
+            try:
+                sem.assign_optimal_throughput(kernel)
+                sem.assign_optimal_throughput(kernel)
+            except Exception as e:  # noqa
+                print("optimised scheduling raised %s -> violated" % type(e).__name__)
+                return 1
+            same = [list(i.port_pressure) for i in kernel] == before
+            print("pressure unchanged: %s -> %s" % (same, "holds" if same else "violated"))
+            return 0 if same else 1
         if rep.get("state") in ("once", "twice"):
             sem.assign_optimal_throughput(kernel)
         if rep.get("state") == "twice":
